@@ -67,7 +67,7 @@ func vfForge(b *DisclosureProofBuilder, pk *gabikeys.PublicKey, attach func(p *P
 	return nil
 }
 
-// vfOwnContributions recomputes the challenge contributions of a ProofD with range proofs without any
+// vfOwnContributions recomputes the challenge contributions of a ProofD with non-revocation and range parts without any
 // of the verifier's well-formedness checks (plain part through the real code on a copy without the
 // optional parts, range proofs in index order through the structure extracted from each proof).
 func vfOwnContributions(view *ProofD, pk *gabikeys.PublicKey) (out []*big.Int, ok bool) {
@@ -76,13 +76,24 @@ func vfOwnContributions(view *ProofD, pk *gabikeys.PublicKey) (out []*big.Int, o
 			out, ok = nil, false
 		}
 	}()
-	if view.NonRevocationProof != nil {
-		return nil, false
-	}
 	plain := &ProofD{C: view.C, A: view.A, EResponse: view.EResponse, VResponse: view.VResponse, AResponses: view.AResponses, ADisclosed: view.ADisclosed}
 	l, err := plain.ChallengeContribution(pk)
 	if err != nil {
 		return nil, false
+	}
+	if np := view.NonRevocationProof; np != nil {
+		// what SetExpected does, without its checks
+		revIdx := view.revocationAttrIndex()
+		if revIdx < 0 || np.SignedAccumulator == nil || np.Responses == nil {
+			return nil, false
+		}
+		acc, err := np.SignedAccumulator.UnmarshalVerify(pk)
+		if err != nil {
+			return nil, false
+		}
+		np.Nu, np.Challenge = acc.Nu, view.C
+		np.Responses["alpha"] = view.AResponses[revIdx]
+		l = append(l, np.ChallengeContributions(pk)...)
 	}
 	max := 0
 	for k := range view.AResponses {
